@@ -167,17 +167,17 @@ func (r runner[K]) check(hist []op) (canon string, msg string) {
 			}
 		}
 	}
-	// full read-back
-	var b strings.Builder
-	b.WriteString(printed)
+	// full read-back on a second instance (a read may change hidden state, e.g. a lookup cache, so the
+	// instance whose state is canonicalised below is not read)
+	m2, ref2, _, _, _ := r.exec(hist)
 	for k := range r.u.keys {
-		v := m.Get(r.u.keys[k])
-		if v != ref[k] {
-			return "", fmt.Sprintf("after %v: Get(k%d) = %q, an ordinary map holds %q", hist, k, v, ref[k])
+		if v := m2.Get(r.u.keys[k]); v != ref2[k] {
+			return "", fmt.Sprintf("Get(k%d) = %q, an ordinary map holds %q", k, v, ref2[k])
 		}
-		fmt.Fprintf(&b, "%d=%s;", k, v)
 	}
-	return b.String(), ""
+	// canonical state: the complete object graph of the list (all fields of the list and of every node,
+	// hidden ones included), so that two histories are merged only if the lists are structurally identical
+	return skiplist.VerifDump(m), ""
 }
 
 func (r runner[K]) alphabet() []op {
@@ -284,7 +284,7 @@ func cases(tier string) []func(time.Time) drv.Result {
 func main() {
 	drv.Main(drv.Property{
 		ID: "C18", Level: "model_checking", PanicIsViolation: true,
-		Rule:        "one case = (order: ord.Int, reversed ord.From, ord.String) x universe (3 keys, 2 values, node heights 1..3 in quick; 4 keys and heights 1..4, 5 keys x heights 1..3, 3 keys x heights 1..6 in thorough); breadth-first search over ALL reachable states, a state being the list's own printed form (every node and every forward pointer) plus the value read back for every key - the concrete state, so merging is exact; every transition = one Put(k,v,height) / Get(k) / Remove(k) executed on a fresh real list after replaying the shortest history; node heights are an enumerated choice (scripted rand.Source installed through a seam file added to the staged copy)",
+		Rule:        "one case = (order: ord.Int, reversed ord.From, ord.String) x universe (3 keys, 2 values, node heights 1..3 in quick; 4 keys and heights 1..4, 5 keys x heights 1..3, 3 keys x heights 1..6 in thorough); breadth-first search over ALL reachable states, a state being the complete object graph of the list obtained by reflection inside the staged package (every field of the list and of each node, unexported and future ones included, pointers normalised to discovery order) - the concrete state, so merging is exact even if a change adds hidden state such as a lookup cache; every transition = one Put(k,v,height) / Get(k) / Remove(k) executed on a fresh real list after replaying the shortest history; node heights are an enumerated choice (scripted rand.Source installed through a seam file added to the staged copy)",
 		Assumptions: []string{"the seam file added to the staged copy of internal/maplike/skiplist only replaces the list's rand.Source", "larger universes / longer random histories are not sampled (outside this family)"},
 		Cases: func(tier string) (int, func(int) string) {
 			return len(cases(tier)), func(i int) string { return fmt.Sprintf("skiplist bfs #%d", i) }
